@@ -68,15 +68,19 @@ DoSweepStep ==
 (* ---- P-256 ---- *)
 PMinusN == BN!Sub(EC!QP256, EC!NP256)
 T255 == BN!Pow2(255)
-\* documented preparation: r, s in range, r >= p - n; s replaced by n - s when s >= 2^255; s little-endian
+\* documented preparation: the signature has even length 2..64 ("shorter lengths are possible
+\* if the source integers happen to be both lower than 2^248"), its halves are r and s
+\* (unsigned big-endian); r, s in range, r >= p - n; s replaced by n - s when s >= 2^255;
+\* output: r big-endian on 32 bytes, s little-endian on 32 bytes
 Prepared(sig) ==
-    IF Len(sig) # 64 THEN <<FALSE, <<>>, <<>>>> ELSE
-    LET r == BN!FromBytesBE(SubSeq(sig, 1, 32))
-        s == BN!FromBytesBE(SubSeq(sig, 33, 64))
-        ok == /\ Len(sig) = 64 /\ ~BN!IsZero(r) /\ BN!Lt(r, EC!NP256) /\ ~BN!IsZero(s) /\ BN!Lt(s, EC!NP256)
+    IF Len(sig) % 2 # 0 \/ Len(sig) = 0 \/ Len(sig) > 64 THEN <<FALSE, <<>>, <<>>>> ELSE
+    LET h == Len(sig) \div 2
+        r == BN!FromBytesBE(SubSeq(sig, 1, h))
+        s == BN!FromBytesBE(SubSeq(sig, h + 1, 2 * h))
+        ok == /\ ~BN!IsZero(r) /\ BN!Lt(r, EC!NP256) /\ ~BN!IsZero(s) /\ BN!Lt(s, EC!NP256)
               /\ ~BN!Lt(r, PMinusN)
         s2 == IF BN!Lt(s, T255) THEN s ELSE BN!Sub(EC!NP256, s)
-    IN <<ok, SubSeq(sig, 1, 32) \o BN!ToBytesLE(s2, 32), SubSeq(sig, 1, 32) \o BN!ToBytesBE(s2, 32)>>
+    IN <<ok, BN!ToBytesBE(r, 32) \o BN!ToBytesLE(s2, 32), BN!ToBytesBE(r, 32) \o BN!ToBytesBE(s2, 32)>>
 DoPrepare == Is("p256_prepare")
              /\ LET p == Prepared(e.sig)
                 IN Chk(Has("some") /\ e.some = p[1] /\ (p[1] => e.out = p[2]))
